@@ -221,11 +221,12 @@ def conditions(prop, tier):
                         fixed=dict(n=2, k0=kk[0], k1=kk[1], k2=0, l2=2, u2=2, genTexts=False), timeout=t,
                         extra_pre=['l0 != 2 and l1 != 2 and u0 != 2 and u1 != 2'],
                         bounds='2 declarations of kinds %d,%d; names: every ordered pair from %r (types: %r)' % (kk[0], kk[1], LOWER, UPPER)))
-    for k, which in ((1, 0), (1, 1), (7, 0)) if q else [(k, 0) for k in range(8)] + [(1, 1)]:
+    # every kind that carries a STATUS (quick: one-letter words for all but the object type)
+    for k, which in [(k, 0) for k in range(8)] + [(1, 1)]:
         out.append(dict(name='C03.status-access.k%d-w%d' % (k, which), fn='status_access', fixed=dict(k=k, which=which), timeout=t,
-                        extra_pre=['len(word) <= %d' % (2 if q else 3)],
+                        extra_pre=['len(word) <= %d' % ((2 if k == 1 else 1) if q else 3)],
                         bounds='%s word on kind %s: ONE symbolic identifier string len<=%d; a neighbouring declaration must keep its own data'
-                               % ('MAX-ACCESS' if which else 'STATUS', STATUS_KINDS[k], 2 if q else 3)))
+                               % ('MAX-ACCESS' if which else 'STATUS', STATUS_KINDS[k], ((2 if k == 1 else 1) if q else 3))))
     # node types (table / row / column / scalar) are part of each symbol's record: the table model of C06 is reused
     for hs, hy in ((True, False), (True, True)):
         out.append(dict(name='C03.nodetype.table-s%d-h%d' % (hs, hy), module='harness.c06_refs', fn='table',
